@@ -363,6 +363,23 @@ def rule_atomic(R):
             t = cb.place_term(dst)
             if t[0] == "deref" and t[1][0] == "param" and t[1][1] in state_caps:
                 bad.append((state_caps[t[1][1]], s_["span"]))
+        # ... and calls that are handed `&mut <state field>` (`self.client_id.clear()`, `.push_str(..)`) mutate it just the same
+        for cbb, c in cb.calls.items():
+            if cbb not in arms_blocks:
+                continue
+            for a in c.args:
+                pl = a.get("move") or a.get("copy")
+                if pl is None or not str(pl.get("ty") or "").startswith("&mut "):
+                    continue
+                t = cb.operand_term(a)
+                hit = None
+                for x in walk(t):
+                    if isinstance(x, tuple) and x[0] == "field" and x[3] in roles.STATE_ADTS:
+                        hit = "%s.%s" % (x[3].rsplit("::", 1)[-1], x[2])
+                    elif isinstance(x, tuple) and x[0] == "param" and x[1] in state_caps:
+                        hit = state_caps[x[1]]
+                if hit:
+                    bad.append((hit, c.span))
     R.ob("atomic/connack-properties", n >= 1 and not bad,
          "the handshake applies nothing from the CONNACK before its whole property block was accepted%s"
          % ("" if not bad else ": the property loop stores into %s" % bad[0][0]), where=bad[0][1] if bad else hb.span)
@@ -826,7 +843,14 @@ def rule_property_cursor(R):
     clause_property_cursor(R, "props-iter")
 
 
+def rule_shared_reader_reset(R):
+    """a spec-valid packet is accepted after any history: the packet reader starts every connection empty -- `Session::connect` resets it (and the timers, and the send progress) before the handshake on every path -- C12's rule"""
+    from .c12 import rule_reset as _r
+    _r(R)
+
+
 def run(R):
+    R.rule("reader-reset", rule_shared_reader_reset)
     R.rule("props-iter", rule_property_cursor)
     R.rule("decode", rule_decode_variants)
     R.rule("panic", rule_panic)
